@@ -40,8 +40,9 @@
    Solver/TraceConf.v) covers the TREE part of a solver step only: the executable check edge_kind
    of one recorded edge (parent state tree, successor state tree) of ISLaSolver(debug=True).state_tree
    is proved sound (C01_trace_edge_sound: a non-zero kind means same root label, grammar-valid
-   successor tree, and completion [Rules.compl] / completion up to node ids / insertion shape
-   [tree guards of r_insert at every prefix of the hint + C13 inserted_lossy]); a completion edge is a
+   successor tree, and completion [Rules.compl] / completion up to node ids / replacement shape
+   [tree guards of r_insert at every prefix of the hint; kind 4 additionally C13 inserted_lossy;
+   kind 5 = nodes lost, a step OUTSIDE the modelled rules, see C01_trace_kind_replace]); a completion edge is a
    refinement step as soon as its constraint part is one (C01_trace_compl_edge_refines), an
    insertion edge is an instance of r_insert given the clause-level premises
    (C01_trace_insert_edge_step), and a whole trace of checked edges with the stated constraint
@@ -612,8 +613,7 @@ Print Assumptions C01_solve_sound3_nonvacuous.
 Theorem C01_trace_edge_spec_def : forall g t p t1,
   edge_spec g t p t1 <->
   (lbl t1 = lbl t /\ wf_tree g t1 /\
-   (compl t t1 \/ compl_ni t t1 \/
-    (InsertCtxMore.inserted_lossy g t t t1 /\ forall p', prefix p' p -> insert_shape g t p' t1))).
+   (compl t t1 \/ compl_ni t t1 \/ (forall p', prefix p' p -> insert_shape g t p' t1))).
 Proof. exact (fun g t p t1 => iff_refl _). Qed.
 Print Assumptions C01_trace_edge_spec_def.
 
@@ -669,6 +669,14 @@ Theorem C01_trace_kind_insert : forall g t p t1, edge_kind g t p t1 = 4%N ->
   InsertCtxMore.inserted_lossy g t t t1 /\ forall p', prefix p' p -> insert_shape g t p' t1.
 Proof. exact edge_kind4_insert. Qed.
 Print Assumptions C01_trace_kind_insert.
+
+(* kind 5: a subtree replaced in place, nodes lost (SMT answer substituted BY ID for a node that
+   was already expanded, after a CONTEXT_ADDITION insertion): outside the completion / insertion
+   rules; only the tree part of inv and the position of the replacement are established *)
+Theorem C01_trace_kind_replace : forall g t p t1, edge_kind g t p t1 = 5%N ->
+  lbl t1 = lbl t /\ wf_tree g t1 /\ forall p', prefix p' p -> insert_shape g t p' t1.
+Proof. exact edge_kind5_replace. Qed.
+Print Assumptions C01_trace_kind_replace.
 
 (* LINK TO THE INVARIANT MACHINERY *)
 (* a completion edge is a refinement step as soon as its constraint part is one *)
@@ -769,8 +777,9 @@ Print Assumptions C01_trace_sound_given_constraints.
 Example C01_trace_edge_kinds_nonvacuous :
   edge_kind tc_g tc_t1 [] tc_t1 = 1%N /\ edge_kind tc_g tc_t0 [] tc_t1 = 2%N /\
   edge_kind tc_g tc_t1 [] tc_t2 = 2%N /\ edge_kind tc_g tc_t1 [] tc_t2' = 3%N /\
-  edge_kind tc_g tc_t2 [] tc_t3 = 4%N /\
-  edge_kind tc_g tc_t2 [] tc_t1 = 0%N /\ edge_kind tc_g tc_t2 [] (Node tc_a 2 false [tc_la]) = 0%N.
+  edge_kind tc_g tc_t2 [] tc_t3 = 4%N /\ edge_kind tc_g tc_t3 [1] tc_t3' = 5%N /\
+  edge_kind tc_g tc_t3 [] tc_t0 = 5%N /\ edge_kind tc_g tc_t1 [] (Node tc_s 1 false [tc_la]) = 0%N /\
+  edge_kind tc_g tc_t2 [] (Node tc_a 2 false [tc_la]) = 0%N.
 Proof. exact edge_kinds_ex. Qed.
 Print Assumptions C01_trace_edge_kinds_nonvacuous.
 
